@@ -189,6 +189,23 @@ func init() {
 func c14YAMLTwin(s, b, g level, hasBook, hasGlobal bool, sep, subsep string) string {
 	w := newWorkspace()
 	defer w.cleanup()
+	// the field level: an in-cell list of predefined structs with its own sep and / or subsep (the most specific level)
+	fieldMask := (int(s.nr) + int(b.dr) + len(g.sep) + int(s.dr)) % 4
+	fprop, fsep, fsubsep := "", sep, subsep
+	if fieldMask&1 != 0 {
+		fsep = "!"
+		fprop += `sep:\"!\"`
+	}
+	if fieldMask&2 != 0 {
+		fsubsep = "^"
+		if fprop != "" {
+			fprop += " "
+		}
+		fprop += `subsep:\"^\"`
+	}
+	if fprop != "" {
+		fprop = "|{" + fprop + "}"
+	}
 	var sb strings.Builder
 	q := func(v string) string { return strconv.Quote(v) }
 	sb.WriteString("\"@sheet\": \"@TABLEAU\"\n")
@@ -212,19 +229,23 @@ func c14YAMLTwin(s, b, g level, hasBook, hasGlobal bool, sep, subsep string) str
 	}
 	opts("ItemConf", s)
 	sb.WriteString("---\n\"@sheet\": \"@ItemConf\"\nItem:\n  \"@type\": \"map<uint32, Item>\"\n  \"@struct\":\n    Name: string\n" +
-		"    Tags:\n      \"@type\": \"[int32]\"\n      \"@incell\": true\n    Attrs:\n      \"@type\": \"map<int32, string>\"\n      \"@incell\": true\n")
+		"    Tags:\n      \"@type\": \"[int32]\"\n      \"@incell\": true\n    Attrs:\n      \"@type\": \"map<int32, string>\"\n      \"@incell\": true\n"+
+		"    Labels:\n      \"@type\": \"[.Label]"+fprop+"\"\n      \"@incell\": true\n")
 	sb.WriteString("---\n\"@sheet\": ItemConf\nItem:\n")
 	items := map[string]any{}
 	for k := 0; k < 3; k++ {
 		id := strconv.Itoa(k + 1)
 		sb.WriteString("  " + id + ":\n    Name: n" + id + "\n    Tags: " + q(fmt.Sprintf("%d%s%d", 10+k, sep, 20+k)) +
-			"\n    Attrs: " + q(fmt.Sprintf("1%sa%s2%sb", subsep, sep, subsep)) + "\n")
-		items[id] = map[string]any{"key": float64(k + 1), "name": "n" + id, "tags": []any{float64(10 + k), float64(20 + k)}, "attrs": map[string]any{"1": "a", "2": "b"}}
+			"\n    Attrs: " + q(fmt.Sprintf("1%sa%s2%sb", subsep, sep, subsep)) +
+			"\n    Labels: " + q(fmt.Sprintf("a%sx%sb%sz", fsubsep, fsep, fsubsep)) + "\n")
+		items[id] = map[string]any{"key": float64(k + 1), "name": "n" + id, "tags": []any{float64(10 + k), float64(20 + k)}, "attrs": map[string]any{"1": "a", "2": "b"},
+			"labels": []any{map[string]any{"name": "a", "text": "x"}, map[string]any{"name": "b", "text": "z"}}}
 	}
 	if err := os.WriteFile(filepath.Join(w.In, "Book.yaml"), []byte(sb.String()), 0o644); err != nil {
 		panic(err)
 	}
-	ro := runOpts{Formats: []format.Format{format.YAML}}
+	ro := docBase(w)
+	ro.Formats = []format.Format{format.YAML}
 	if hasGlobal {
 		ro.Header = g.global()
 	}
